@@ -22,6 +22,20 @@ P = {
         "components": comp(real=["services ftp, smtp, redis, memcached, telnet, http (real handlers)"]),
         "assumptions": ["interleavings finer than one delivered segment are not explored", "GOMAXPROCS=1 in workers (part of the design)"],
     },
+    "C08": {
+        "runs": {"quick": 4000, "thorough": 600000},
+        "budget_s": {"quick": 150, "thorough": 3000},
+        "rule": "one scenario = a generated port table (1-3 ports, tcp/udp, wildcard or specific address, 0-4 stub services each with or without a prefix detector) plus 1-4 interleaved clients whose first delivered segment, further segmentation, silence before the first byte and destination (configured / unconfigured port or address) are seeded; distinct = distinct trace digest; non-trivial = at least one connection reaches a port with >=2 services (ordered scan, possibly with peek)",
+        "components": comp(real=["findService / compareAddr / peekConnection / timeoutConn"], stub=["stub services registered through services.Register (record invocation + bytes read)"]),
+        "assumptions": ["'first bytes the client sent' = the bytes actually delivered before the peek returned (first segment, cut at 1024)", "tables are unambiguous (duplicates are C19's subject)"],
+    },
+    "C19": {
+        "runs": {"quick": 3000, "thorough": 60000},
+        "budget_s": {"quick": 150, "thorough": 3000},
+        "rule": "one scenario = one generated configuration booted through the real Run(): either a table of 1-4 [[port]] entries using port and/or ports with strings from an alphabet of well-formed and malformed entries and service lists naming defined / undefined / wrongly-typed / duplicate services, or a parser sweep of 64 consecutive port numbers (thorough covers 0..65599 for tcp and udp); after boot every listened address and a fixed universe of other addresses is probed; distinct = distinct trace digest (listen log + probes); non-trivial = more than one entry or port string",
+        "components": comp(real=["ToAddr, port table construction, compareAddr, AddAddress"], stub=["stub services"]),
+        "assumptions": ["host names and literal 0.0.0.0/:: are not generated (DNS / statement silent)", "no schedule, clock or fault dimension: configuration exploration hosted by the simulator"],
+    },
 }
 
 def get(prop):
